@@ -216,6 +216,13 @@ class Run:
                 p.kill()
                 raise Infra("driver timeout: %s" % " ".join(c))
             stderr_all.append(se)
+            if p.returncode == 3 and "LZ-LOCK-LEAKED" in (se or "") and self.pid == "C09":
+                # real behaviour, and C09's subject: a call panicked and left the library's lock held for ever
+                what = [ln for ln in se.splitlines() if "LZ-LOCK-LEAKED" in ln][0][:300]
+                self.rejects.append({"name": "C09.lock.left-held-by-a-panicking-call", "line": 0,
+                                     "key": "<<%s, %s>>" % (json.dumps(cmd), json.dumps(what, ensure_ascii=False)), "chunk": base})
+                log("driver %s shard %d: %s" % (cmd, i, what))
+                continue
             if p.returncode != 0 or "LZ-DONE" not in so:
                 raise Infra("driver died (%s): %s\n%s" % (p.returncode, " ".join(c), (se or "")[-3000:]))
             m = re.search(r"lines=(\d+)", so)
@@ -228,7 +235,7 @@ class Run:
         self.cov["drivers"].append({"cmd": cmd, "args": a, "shards": shards, "lines": lines,
                                     "wall_s": round(time.time() - t, 1)})
         log("drive %s: %d lines in %d chunks, %.1fs" % (label, lines, len(chunks), time.time() - t))
-        if lines == 0:
+        if lines == 0 and not self.unlisted_so_far():
             raise Infra("driver %s produced no events" % cmd)
         self.last_stderr = stderr_all
         return chunks
